@@ -18,7 +18,8 @@ CtxOps == { <<W("a")>>, <<W("b"), O("as"), W("c")>>, <<W("a"), O(":"), W("@T")>>
             <<O("$"), W("q")>>, <<W("g"), O("("), W("y"), O(")")>>, <<W("g"), O("("), W("y"), O(","), W("z"), O(")")>>,
             <<W("a"), O(","), W("b")>>, <<W("h"), O("("), W("g"), O("("), W("y"), O(")"), O(")")>> }
 Laws == {"gt-vs-bang", "gt-with-context", "chain-assoc", "chain-nested", "chain-ctx", "call-as", "call-ctx-as",
-         "dollar", "dollar-in", "call-eq"}
+         "dollar", "dollar-in", "call-eq", "in-gt-vs-bang", "in-chain-nested", "in-call-as", "in-chain-call-as", "in-call-eq",
+         "root-chain-call-as"}
 GT == <<O(">")>>  LPAR == <<O("(")>>  RPAR == <<O(")")>>  BANG == <<O("!")>>  COMMA == <<O(",")>>
 Lhs(law, fn, cap, ctx) ==
   CASE law = "gt-vs-bang"      -> fn \o GT \o cap
@@ -31,6 +32,12 @@ Lhs(law, fn, cap, ctx) ==
     [] law = "dollar"          -> fn \o GT \o <<O("$"), W("x")>>
     [] law = "dollar-in"       -> fn \o LPAR \o <<O("$"), W("x")>> \o RPAR \o GT \o <<W("y")>>
     [] law = "call-eq"         -> fn \o LPAR \o ctx \o RPAR \o <<O("="), W("1")>>
+    [] law = "in-gt-vs-bang"   -> <<W("h")>> \o LPAR \o ctx \o COMMA \o fn \o GT \o cap \o RPAR
+    [] law = "in-chain-nested" -> <<W("h")>> \o LPAR \o ctx \o COMMA \o fn \o GT \o <<W("g")>> \o GT \o cap \o RPAR
+    [] law = "in-call-as"      -> <<W("h")>> \o LPAR \o ctx \o COMMA \o fn \o LPAR \o RPAR \o <<O("as"), W("r")>> \o RPAR
+    [] law = "in-chain-call-as" -> <<W("h")>> \o LPAR \o ctx \o COMMA \o <<W("g")>> \o GT \o fn \o LPAR \o RPAR \o <<O("as"), W("r")>> \o RPAR
+    [] law = "in-call-eq"      -> <<W("h")>> \o LPAR \o <<W("q")>> \o COMMA \o fn \o LPAR \o ctx \o RPAR \o <<O("="), W("1")>> \o RPAR
+    [] law = "root-chain-call-as" -> <<W("g")>> \o GT \o fn \o LPAR \o ctx \o RPAR \o <<O("as"), W("r")>>
 Rhs(law, fn, cap, ctx) ==
   CASE law = "gt-vs-bang"      -> fn \o LPAR \o BANG \o cap \o RPAR
     [] law = "gt-with-context" -> fn \o LPAR \o ctx \o COMMA \o BANG \o cap \o RPAR
@@ -42,6 +49,12 @@ Rhs(law, fn, cap, ctx) ==
     [] law = "dollar"          -> fn \o GT \o <<W("*"), O("as"), W("x")>>
     [] law = "dollar-in"       -> fn \o LPAR \o <<W("*"), O("as"), W("x")>> \o RPAR \o GT \o <<W("y")>>
     [] law = "call-eq"         -> fn \o LPAR \o ctx \o COMMA \o <<W("#value"), O("="), W("1")>> \o RPAR
+    [] law = "in-gt-vs-bang"   -> <<W("h")>> \o LPAR \o ctx \o COMMA \o fn \o LPAR \o BANG \o cap \o RPAR \o RPAR
+    [] law = "in-chain-nested" -> <<W("h")>> \o LPAR \o ctx \o COMMA \o fn \o LPAR \o <<W("g")>> \o LPAR \o BANG \o cap \o RPAR \o RPAR \o RPAR
+    [] law = "in-call-as"      -> <<W("h")>> \o LPAR \o ctx \o COMMA \o fn \o LPAR \o <<W("#value"), O("as"), W("r")>> \o RPAR \o RPAR
+    [] law = "in-chain-call-as" -> <<W("h")>> \o LPAR \o ctx \o COMMA \o <<W("g")>> \o LPAR \o fn \o LPAR \o RPAR \o <<O("as"), W("r")>> \o RPAR \o RPAR
+    [] law = "in-call-eq"      -> <<W("h")>> \o LPAR \o <<W("q")>> \o COMMA \o fn \o LPAR \o ctx \o COMMA \o <<W("#value"), O("="), W("1")>> \o RPAR \o RPAR
+    [] law = "root-chain-call-as" -> <<W("g")>> \o LPAR \o fn \o LPAR \o ctx \o COMMA \o BANG \o <<W("#value"), O("as"), W("r")>> \o RPAR \o RPAR
 VARIABLES law, fn, cap, ctx
 Init == law \in Laws /\ fn \in FnOps /\ cap \in CapOps /\ ctx \in CtxOps
 Next == UNCHANGED <<law, fn, cap, ctx>>
@@ -57,5 +70,8 @@ Focused(c) == IF c.k = "E" THEN (IF c.t1 THEN 1 ELSE 0)
                        SumC(i) == IF i = 0 THEN 0 ELSE fc(i) + SumC(i - 1)
                        SumK(i) == IF i = 0 THEN 0 ELSE fk(i) + SumK(i - 1)
                    IN SumC(Len(c.caps)) + SumK(Len(c.kids))
-OneFocus == (~IsErr(L) /\ law # "call-eq") => Focused(SelectOf(L)) = 1
+RootLaws == {"gt-vs-bang", "gt-with-context", "chain-assoc", "chain-nested", "chain-ctx", "call-as", "call-ctx-as", "dollar", "dollar-in", "root-chain-call-as"}
+OneFocus == (~IsErr(L) /\ law \in RootLaws) => Focused(SelectOf(L)) = 1
+\* inside another call's parentheses 'f() as r' and 'f(b)=c' carry no focus; '>' and '!' carry exactly one
+InnerFocus == (~IsErr(L) /\ law \in {"in-call-as", "in-chain-call-as", "in-call-eq"}) => Focused(SelectOf(L)) = 0
 =============================================================================
